@@ -735,6 +735,12 @@ func adjustForAnchors(pf prefilter.Prefilter, strategy Strategy, re *syntax.Rege
 			// Other anchors (\b, $) or mixed anchors:
 			// Mark incomplete — engine must verify with NFA/DFA.
 			pf = prefilter.WrapIncomplete(pf)
+			// The literal-engine strategies report literal occurrences as
+			// matches; with a prefilter that needs verification the NFA
+			// (with the prefilter as skip-ahead) has to decide.
+			if strategy == UseTeddy || strategy == UseAhoCorasick {
+				strategy = UseNFA
+			}
 		}
 	}
 
